@@ -80,6 +80,7 @@ theorem mstep_keysDistinct (env : Env) (st : MSt) (op : MOp) (h : KeysDistinct s
   | setRate r => exact h
   | setAdaptive b => exact h
   | setHook hk => exact h
+  | setSigs l => exact h
 
 theorem mrun_keysDistinct (env : Env) (ops : List MOp) : ∀ (st : MSt), KeysDistinct st.m.learned →
     KeysDistinct (mrun env st ops).1.m.learned := by
